@@ -20,6 +20,7 @@ def canon(v) -> str:
 
 class C24(Check):
     PROPERTY = "C24"
+    USES_TEMPLATE_DB = True
     RULE = (
         "seeded histories of <= 15 tag operations exactly as `redun tag add/update/rm` issue them "
         "(record_tags(new=True), record_tags(update=True), delete_tags(pairs, keys)) over 2-3 "
